@@ -474,7 +474,18 @@ class DiffXReader(object):
                 'not "%s"' % indent,
                 linenum=self._linenum - 1)
 
-        content = fp.read(length)
+        try:
+            content = fp.read(length)
+        except OverflowError:
+            raise DiffXParseError(
+                'The length option (%s) is too large' % length,
+                linenum=self._linenum - 1)
+
+        if not content:
+            # Content sections must at least contain a newline.
+            raise DiffXParseError(
+                'Expected a newline after content',
+                linenum=self._linenum)
 
         # First, determine the line endings that we're going to be working
         # with.
